@@ -28,7 +28,17 @@ func (k msgServer) UpdateParams(goCtx context.Context, req *types.MsgUpdateParam
 	}
 
 	ctx := sdk.UnwrapSDKContext(goCtx)
-	k.SetParams(ctx, req.Params)
+	params := req.Params
+	// as in InitGenesis, an empty Eden / EdenB validator address stands for the derived one that is
+	// already stored; storing "" would make the distribution begin blocker allocate to an empty address
+	current := k.GetParams(ctx)
+	if params.EdenCommitVal == "" {
+		params.EdenCommitVal = current.EdenCommitVal
+	}
+	if params.EdenbCommitVal == "" {
+		params.EdenbCommitVal = current.EdenbCommitVal
+	}
+	k.SetParams(ctx, params)
 
 	return &types.MsgUpdateParamsResponse{}, nil
 }
